@@ -668,6 +668,15 @@ static void set_payload(vnacal_t *vcp, int ci, const char *who)
     (void)vnacal_property_set(vcp, ci, "empty=");
     (void)vnacal_property_set(vcp, ci, "punct=a: b # c, [d] {e} 'f' \"g\"");
     (void)vnacal_property_set(vcp, ci, "number_like=007");
+    /* collections without members, a null, and the three inside a list */
+    (void)vnacal_property_set_subtree(vcp, ci, "no_switches[]");
+    (void)vnacal_property_set_subtree(vcp, ci, "no_fixtures{}");
+    (void)vnacal_property_set(vcp, ci, "nothing#");
+    (void)vnacal_property_set_subtree(vcp, ci, "mixed[0][]");
+    (void)vnacal_property_set_subtree(vcp, ci, "mixed[1]{}");
+    (void)vnacal_property_set(vcp, ci, "mixed[2]#");
+    (void)vnacal_property_set(vcp, ci, "mixed[3]=");
+    (void)vnacal_property_set_subtree(vcp, ci, "setup.empty_inside{}");
     /* keys that only exist because the caller escaped them */
     static const char *const odd[] = { "rev.A", "port[2]", "a\\b", "k=v",
 	"has#hash", "9lives", " lead", "trail ", "it's \"q\"", "{brace}",
